@@ -2,6 +2,7 @@ import Ark.Proofs.GenBridge.ObsReset
 import Ark.Props.C02
 import Ark.Props.C08
 import Ark.Proofs.Rejects
+import Ark.Props.C16World
 
 namespace Ark.Props.C16
 open Ark
@@ -28,5 +29,55 @@ theorem pool_reset_core (p : Pool) (h2 : p.ents.take 2 = Pool.init.ents) :
 /-- the lock is clear after `Reset` -/
 theorem lock_reset (l : Lock) : l.reset.isLocked = false := by
   simp [Lock.reset, Lock.isLocked]
+
+
+/-! ## world level (Props/C16World): `Reset` as a pure function, the empty state it establishes, the
+    invariants it re-establishes (so that it can be iterated), agreement with a new world on everything
+    later operations read first, and three recorded facts about IDs that survive a `Reset` -/
+
+theorem world_reset_succeeds : type_of% @Ark.Props.C16World.reset_succeeds := @Ark.Props.C16World.reset_succeeds
+
+theorem world_reset_archetypes : type_of% @Ark.Props.C16World.reset_archetypes := @Ark.Props.C16World.reset_archetypes
+
+theorem world_reset_tables : type_of% @Ark.Props.C16World.reset_tables := @Ark.Props.C16World.reset_tables
+
+theorem world_reset_establishes : type_of% @Ark.Props.C16World.reset_establishes := @Ark.Props.C16World.reset_establishes
+
+theorem world_reset_emptyState : type_of% @Ark.Props.C16World.reset_emptyState := @Ark.Props.C16World.reset_emptyState
+
+theorem world_reset_sinv : type_of% @Ark.Props.C16World.reset_sinv := @Ark.Props.C16World.reset_sinv
+
+theorem world_reset_idxInv : type_of% @Ark.Props.C16World.reset_idxInv := @Ark.Props.C16World.reset_idxInv
+
+theorem world_reset_rinv : type_of% @Ark.Props.C16World.reset_rinv := @Ark.Props.C16World.reset_rinv
+
+theorem world_reset_kills_old_handles : type_of% @Ark.Props.C16World.reset_kills_old_handles := @Ark.Props.C16World.reset_kills_old_handles
+
+theorem world_reset_hyps_init : type_of% @Ark.Props.C16World.reset_hyps_init := @Ark.Props.C16World.reset_hyps_init
+
+theorem world_reset_twice : type_of% @Ark.Props.C16World.reset_twice := @Ark.Props.C16World.reset_twice
+
+theorem world_observers_reset_clears : type_of% @Ark.Props.C16World.observers_reset_clears := @Ark.Props.C16World.observers_reset_clears
+
+theorem world_obsBound_addObserver : type_of% @Ark.Props.C16World.obsBound_addObserver := @Ark.Props.C16World.obsBound_addObserver
+
+theorem world_obsBound_removeObserver : type_of% @Ark.Props.C16World.obsBound_removeObserver := @Ark.Props.C16World.obsBound_removeObserver
+
+theorem world_emptyState_like_fresh : type_of% @Ark.Props.C16World.emptyState_like_fresh := @Ark.Props.C16World.emptyState_like_fresh
+
+theorem world_reset_like_fresh : type_of% @Ark.Props.C16World.reset_like_fresh := @Ark.Props.C16World.reset_like_fresh
+
+theorem world_empty_world_queries_count_zero : type_of% @Ark.Props.C16World.empty_world_queries_count_zero := @Ark.Props.C16World.empty_world_queries_count_zero
+
+theorem world_empty_world_queries_visit_nothing : type_of% @Ark.Props.C16World.empty_world_queries_visit_nothing := @Ark.Props.C16World.empty_world_queries_visit_nothing
+
+theorem world_reset_winv : type_of% @Ark.Props.C16World.reset_winv := @Ark.Props.C16World.reset_winv
+
+theorem world_reset_keeps_cache_id_pool : type_of% @Ark.Props.C16World.reset_keeps_cache_id_pool := @Ark.Props.C16World.reset_keeps_cache_id_pool
+
+theorem world_reset_keeps_observer_id_pool : type_of% @Ark.Props.C16World.reset_keeps_observer_id_pool := @Ark.Props.C16World.reset_keeps_observer_id_pool
+
+theorem world_reset_keeps_id_of_failed_register : type_of% @Ark.Props.C16World.reset_keeps_id_of_failed_register := @Ark.Props.C16World.reset_keeps_id_of_failed_register
+
 
 end Ark.Props.C16
